@@ -103,8 +103,11 @@ static int devOfSrc(unsigned s) { for (int d = 0; d < nDev; d++) if (N->src(d) =
 
 static void checkPayload(const Frame &f, int d, bool forced) {
   const ODev &o = od[d];
-  bool ok = f.len == 8 && ((f.id >> 26) & 7) == 7 && f.buf[3] == 0xff && f.buf[4] == 0xff && f.buf[5] == 0xff && f.buf[6] == 0xff && f.buf[7] == 0xff;
-  if (!ok) C.fail("C12:layout", "heartbeat frame %s", frameStr(f).c_str());
+  // the property fixes the interval field (bytes 0-1, 10 ms) and the sequence counter (byte 2); priority, the remaining bytes
+  // ("reserved" in the edition the library implements, status fields in later ones) and their values are left open: counted only
+  bool ok = f.len >= 3 && f.len <= 8;
+  if (!ok) C.fail("C12:layout", "heartbeat frame %s is too short for the interval and sequence fields", frameStr(f).c_str());
+  if (!(f.len == 8 && ((f.id >> 26) & 7) == 7 && f.buf[3] == 0xff && f.buf[4] == 0xff && f.buf[5] == 0xff && f.buf[6] == 0xff && f.buf[7] == 0xff)) C.count("heartbeat_frames_with_other_priority_or_tail");
   unsigned field = f.buf[0] | (f.buf[1] << 8);
   if (o.P != 0) {
     long dec = (long)field * 10; long want = (long)o.P;
@@ -142,7 +145,9 @@ static void oraclePoll(const std::vector<Frame> &fr) {
   for (int d = 0; d < nDev; d++) {
     ODev &o = od[d];
     if (cnt[d] > 1) C.fail("C12:two-in-one-poll", "dev %d sent %d heartbeats in one poll", d, cnt[d]);
-    if (cnt[d] == 0 && o.P != 0 && !claimOnBefore[d] && g_now > o.G)
+    // (the claim window's length is not C12's subject: learnt from the node's claim timer, but a timer still armed 2 s after the claim
+    //  - it is only disarmed lazily - no longer excuses a missing heartbeat)
+    if (cnt[d] == 0 && o.P != 0 && (!claimOnBefore[d] || (int64_t)g_now > o.claimFrom + 2000) && g_now > o.G)
       { C.fail(o.reenabledSame ? "C12:reenable-same-interval" : (o.keepAllTouched ? "C12:keep-interval-multidevice" : "C12:missed"), "dev %d no heartbeat at +%llu, grid point +%llu passed (interval %u offset %u)", d, (unsigned long long)(g_now - T0), (unsigned long long)(o.G - T0), o.P, o.O);
         o.G = leastGridAfter(o, g_now); }   // report once per grid point
   }
@@ -282,7 +287,11 @@ static void exec(const std::string &line) {
     group.emplace_back(); inRun = true; Run &r = group.back(); r.origin = origin; r.firstLine = C.opline;
     r.ops.push_back("reset0"); r.rel.push_back(0);
     noteRisk(g_now, 1, true);
-    emit("ok"); return;
+    emit("ok");
+    { // what the property leaves open in the heartbeat frame (priority, bytes 3..7) is read from the encoder and handed to the model
+      tN2kMsg hm; SetHeartbeat(hm, 60000, 0); char hb[64]; snprintf(hb, sizeof hb, "hbfmt %u %s", hm.Priority, hex(hm.Data + 3, hm.DataLen > 3 ? hm.DataLen - 3 : 0).c_str());
+      C.op("%s", hb); r.ops.push_back(hb); r.rel.push_back(0); emit("ok"); }
+    return;
   }
   C.op("%s", line.c_str()); C.count("op_" + w[0]);
   if (!N) { C.out("bad-op"); return; }
@@ -606,7 +615,7 @@ static void probeCompare(const std::string &kind, uint64_t oa, uint64_t ob) {
   auto has = [&](const char *p) { for (auto &e : a) if (e.what.compare(0, strlen(p), p) == 0) return true; return false; };
   if (kind == "tp" && !(has("RTS") && has("CTS") && has("EndAck") && has("BAM") && has("DT") && has("Abort") && has("deliver:126720") && has("sendB2=0") && has("sendC=1") && has("sendD=1")))
     C.fail("harness:probe-tp-coverage", "TP probe did not show RTS/CTS/EndAck/BAM/DT/Abort/deliveries/time-outs");
-  if (kind == "slots") { int del = 0; for (auto &e : a) if (e.what.compare(0, 8, "deliver:") == 0) del++; if (del != 5 || !has("deliver:129029:46") || !has("deliver:129029:70")) C.fail("harness:probe-slots-coverage", "slot probe delivered %d messages, expected 5 (46 and 43 after recycling the slots of 40 and 41; 70 after recycling one of 60..64, and 60, 61)", del); }
+  if (kind == "slots") { int del = 0; for (auto &e : a) if (e.what.compare(0, 8, "deliver:") == 0) del++; if (del < 4 || !has("deliver:129029:46") || !has("deliver:129029:70")) C.fail("harness:probe-slots-coverage", "slot probe delivered %d messages, expected 46 and 43 after recycling the slots of 40 and 41, 70 after recycling one of 60..64 (which one is the implementation's tie-break) and the untouched ones of 60, 61", del); }
   if (kind == "pend") { int p1 = 0, p2 = 0; for (auto &e : a) { if (e.what.compare(0, 10, "pgn126996#") == 0) p1++; if (e.what.compare(0, 10, "pgn126998#") == 0) p2++; } if (p1 < 40 || p2 < 10) C.fail("harness:probe-pend-coverage", "pending-information probe saw %d / %d frames", p1, p2); }
   C.cases++;
 }
@@ -614,6 +623,9 @@ static void probeCompare(const std::string &kind, uint64_t oa, uint64_t ob) {
 // ------------------------------------------------------------------------------------------------ generators
 static std::vector<std::string> script;            // ops of the current scenario after reset0 (recorded during the first run)
 static void doOp(const std::string &l) { script.push_back(l); exec(l); }
+// the settle delay between CANOpen() and the first frame is not fixed by the properties: keep polling until the node is open
+static void ensureOpen() { for (int i = 0; i < 30 && N && !N->isOpen(); i++) doOp("run 100"); }
+
 
 static uint32_t genInterval(Rng &R) {
   static const uint32_t v[] = {1000, 1000, 1000, 1001, 1009, 2500, 5000, 60000, 65530, 65535, 65536, 65540, 100000, 300000, 655319, 655320, 655321, 700000, 999, 1, 0, KEEP, RESTORE, 0xfffffffdu, 0x80000000u};
@@ -646,7 +658,7 @@ static void genGfreq(Rng &R, int devs) {
 
 // sparse, jittered polling with long gaps (C12 timing oracle + C13 comparison)
 static void genSparse(Rng &R, int devs, bool fast) {
-  doOp("run " + std::to_string(R.range(205, 320)));
+  doOp("run " + std::to_string(R.range(205, 320))); ensureOpen();
   if (fast) { char b[96]; snprintf(b, sizeof b, "hbset %u %u -1", (unsigned)R.range(1000, 1100), (unsigned)R.range(0, 999)); doOp(b); }   // > 253 heartbeats per device
   if (R.chance(4, 5)) { int n = (int)R.range(1, 3); for (int i = 0; i < n; i++) genHbset(R, devs, fast); }
   if (R.chance(1, 3)) doOp("get");
@@ -673,12 +685,34 @@ static void genSparse(Rng &R, int devs, bool fast) {
   doOp("get"); doOp("m64");
 }
 
+// directed (identical for every seed): (1) a SetHeartbeatIntervalAndOffset / group-function request that resolves to the values
+// already in force arrives between a heartbeat's grid point and the next ParseMessages(): the due heartbeat must still be sent
+// ("late polling delays but does not shift" - nor skip); (2) a heartbeat that falls due inside an address-claim window is sent when
+// the window is over, not dropped
+static void genSameValue() {
+  doOp("run 300"); ensureOpen();
+  doOp("hbset 5000 100 -1"); doOp("t 5300"); doOp("poll");
+  auto pastGrid = [&]() { uint64_t dt = od[0].G + 3 > g_now ? od[0].G + 3 - g_now : 1; doOp("t " + std::to_string(dt)); };
+  pastGrid(); doOp("hbset 5000 100 -1"); doOp("poll");                       // same interval and offset
+  pastGrid(); doOp("hbset 4294967295 4294967295 -1"); doOp("poll");          // keep / keep
+  pastGrid(); doOp("hbset 4294967295 100 0"); doOp("poll");                  // keep interval, same offset, one device
+  pastGrid(); doOp("hbset 5000 4294967295 1"); doOp("poll");                 // same interval, keep offset
+  pastGrid(); doOp("gfreq 0 5000 65535 0");                                  // request for the current interval (poll included)
+  pastGrid(); doOp("gfreq -1 4294967295 0 0");                               // request "no change" to all devices
+  doOp("get");
+  { uint64_t dt = od[0].G > g_now + 100 ? od[0].G - g_now - 100 : 1; doOp("t " + std::to_string(dt)); }
+  doOp("claim 0"); doOp("run 2600");                                         // due 100 ms into the claim window: sent when it ends
+  doOp("hbset 60000 100 -1"); doOp("t 59000"); doOp("poll"); doOp("t 2000"); doOp("poll");
+  pastGrid(); doOp("hbset 4294967294 4294967295 -1"); doOp("poll");          // restore default = the interval in force
+  doOp("get"); doOp("m64");
+}
+
 // dense polling (every ms) with configuration changes in between; also used with driver back-pressure
 static void genDense(Rng &R, int devs, bool bp) {
   if (R.chance(1, 4)) doOp("canopen 0");
   doOp("run " + std::to_string(R.range(1, 400)));
   doOp("canopen 1");
-  doOp("run " + std::to_string(R.range(1250, 1600)));
+  doOp("run " + std::to_string(R.range(1250, 1600))); ensureOpen();
   int segs = (int)R.range(3, 8);
   for (int i = 0; i < segs; i++) {
     unsigned k = (unsigned)R.below(100);
@@ -700,21 +734,26 @@ static void scenario(Rng &R, int kind) {
   int devs = R.chance(1, 3) ? 1 : (int)R.range(1, 9);
   int md = R.chance(1, 8) ? (int)R.pick(std::vector<int>{0, 3, 4}) : (R.chance(1, 2) ? 1 : 2);
   unsigned qsize = kind == 2 ? (unsigned)R.range(2, 6) : 40;
+  if (kind == 3) { devs = 2; md = 1; }
   char b[160];
   snprintf(b, sizeof b, "scenario %ld", ++scenarioNo); exec(b);
   // first run: origin 0 (or small), the script is generated adaptively while it executes
   uint64_t o0 = R.chance(1, 2) ? 0 : R.below(100000);
+  if (kind == 3) o0 = 0;
   snprintf(b, sizeof b, "reset0 %s %u %d %d %llu", FLAVOR, qsize, md, devs, (unsigned long long)o0); exec(b);
   bool fast = R.chance(1, 3);
-  if (kind == 0) genSparse(R, devs, fast); else genDense(R, devs, kind == 2);
+  if (kind == 3) genSameValue(); else if (kind == 0) genSparse(R, devs, fast); else genDense(R, devs, kind == 2);
   uint64_t len = g_now - o0 + 1;
   // further origins: 2^31 +- k, 2^32 - k for k across the scenario length; sentinel-directed origins for the dense scenarios
   std::vector<uint64_t> origins;
-  origins.push_back(0x100000000ULL - 1 - R.below(len < 0xFFFFFFFFULL ? len : 0xFFFFFFFFULL));
-  origins.push_back(R.chance(1, 2) ? 0x80000000ULL - R.below(len < 0x7FFFFFFFULL ? len : 0x7FFFFFFFULL) : 0x80000000ULL + R.below(5000));
-  if (kind != 0) origins.push_back(R.pick(std::vector<uint64_t>{0xFFFFFFFFULL, 0xFFFFFFFFULL - 200, 0xFFFFFFFFULL - 450, 0xFFFFFFFFULL - 1000, 0xFFFFFFFFULL - 1200, 0xFFFFFFFEULL, 0x100000000ULL}));
-  else if (R.chance(1, 2)) origins.push_back(0x100000000ULL - 1 - R.below(400));
-  if (!T32B && R.chance(1, 2)) origins.push_back((1ULL << 40) + R.below(1000));
+  if (kind == 3) { origins.push_back(0x100000000ULL - 30000); origins.push_back(0x80000000ULL - 40000); }
+  else {
+    origins.push_back(0x100000000ULL - 1 - R.below(len < 0xFFFFFFFFULL ? len : 0xFFFFFFFFULL));
+    origins.push_back(R.chance(1, 2) ? 0x80000000ULL - R.below(len < 0x7FFFFFFFULL ? len : 0x7FFFFFFFULL) : 0x80000000ULL + R.below(5000));
+    if (kind != 0) origins.push_back(R.pick(std::vector<uint64_t>{0xFFFFFFFFULL, 0xFFFFFFFFULL - 200, 0xFFFFFFFFULL - 450, 0xFFFFFFFFULL - 1000, 0xFFFFFFFFULL - 1200, 0xFFFFFFFEULL, 0x100000000ULL}));
+    else if (R.chance(1, 2)) origins.push_back(0x100000000ULL - 1 - R.below(400));
+    if (!T32B && R.chance(1, 2)) origins.push_back((1ULL << 40) + R.below(1000));
+  }
   std::vector<std::string> sc = script;
   for (uint64_t o : origins) {
     snprintf(b, sizeof b, "reset0 %s %u %d %d %llu", FLAVOR, qsize, md, devs, (unsigned long long)o); exec(b);
@@ -731,7 +770,8 @@ int main(int argc, char **argv) {
       std::vector<std::string> w = split(l);
       if (w[0] == "reset0" && w.size() >= 5 && (w.size() == 5 || w[5].find(':') != std::string::npos)) {
         int devs = (int)w.size() - 5; char b[160]; snprintf(b, sizeof b, "reset0 %s %s %s %d %s", FLAVOR, w[2].c_str(), w[3].c_str(), devs, w[4].c_str()); exec(b);
-      } else exec(l);
+      } else if (w[0] == "hbfmt") { continue; }   // regenerated after reset0
+      else exec(l);
     }
     finishGroup(); C.finish(); return 0;
   }
@@ -742,10 +782,12 @@ int main(int argc, char **argv) {
     for (uint64_t o : {0ULL, 0xFFFFFFFFULL - 30000ULL}) {
       snprintf(b, sizeof b, "reset0 %s 40 1 2 %llu", FLAVOR, (unsigned long long)o); exec(b);
       for (const char *l : {"run 260", "hbset 100000 0 -1", "t 100000", "poll", "hbset 5000 100 1", "get", "hbset 4294967295 500 -1", "get", "t 5000", "poll", "t 5000", "poll",
-                            "hbset 0 0 -1", "t 200000", "poll", "hbset 100000 500 0", "t 100000", "poll", "hbset 0 0 0", "hbforce", "t 100000", "poll", "t 100000", "poll", "get", "m64"}) exec(l);
+                            "hbset 0 0 -1", "t 200000", "poll", "hbset 100000 500 0", "t 100000", "poll", "hbset 0 0 0", "hbforce", "t 100000", "poll", "t 100000", "poll", "get", "m64"}) { exec(l); if (!strcmp(l, "run 260")) for (int i = 0; i < 30 && !N->isOpen(); i++) exec("run 100"); }
     }
     finishGroup();
   }
+  // directed: values already in force set again between a grid point and the next poll; heartbeat due inside a claim window
+  scenario(R, 3);
   // directed: group-function requests for PGN 126993 over the bus, every interval class
   {
     exec("scenario d2"); char b[160];
@@ -753,7 +795,7 @@ int main(int argc, char **argv) {
       snprintf(b, sizeof b, "reset0 %s 40 2 2 %llu", FLAVOR, (unsigned long long)o); exec(b);
       for (const char *l : {"run 460", "gfreq 0 5000 65535 0", "t 5000", "poll", "gfreq 0 0 65535 0", "t 5000", "poll", "t 5000", "poll", "gfreq -1 999 0 0", "gfreq 1 1000 100 0", "t 1000", "poll",
                             "gfreq 1 60001 65535 0", "gfreq 1 60000 65535 0", "gfreq 0 4294967294 65535 0", "get", "gfreq 0 4294967295 200 0", "gfreq 0 4294967295 65535 0", "gfreq 0 2000 7000 0", "gfreq 0 2000 0 1",
-                            "gfreq -1 0 0 0", "t 60000", "poll", "t 60000", "poll", "get"}) exec(l);
+                            "gfreq -1 0 0 0", "t 60000", "poll", "t 60000", "poll", "get"}) { exec(l); if (!strcmp(l, "run 460")) for (int i = 0; i < 30 && !N->isOpen(); i++) exec("run 100"); }
     }
     finishGroup();
   }
